@@ -183,7 +183,8 @@ func (d *driver) runTranscriptProgram(w emitter, pid int, line []byte) {
 				continue
 			}
 			e := ev{"ev": "t", "prog": pid, "run": run, "k": k, "op": o.Op, "label": bytesToInts(labelBytes(o.Label)), "last": k == len(seq)-1, "twin": kind}
-			lb := labelBytes(o.Label)
+			var g tailGuard
+			lb := guardSlice(&g, labelBytes(o.Label), byte(0x5a)) // labels and messages are fronts of larger arrays with sentinels behind them
 			switch o.Op {
 			case "new":
 				t = common.NewTranscript(string(lb))
@@ -210,6 +211,7 @@ func (d *driver) runTranscriptProgram(w emitter, pid int, line []byte) {
 					m = append(m, 0x27)
 					enc = map[string]interface{}{"lit": bytesToInts(m)}
 				}
+				m = guardSlice(&g, m, byte(0x5a))
 				before := append([]byte(nil), m...)
 				t.AppendMessage(m, lb)
 				e["msg"] = enc
@@ -273,6 +275,7 @@ func (d *driver) runTranscriptProgram(w emitter, pid int, line []byte) {
 				c := t.ChallengeScalar(lb)
 				e["out"] = frReg(&c)
 			}
+			e["tails_unchanged"] = g.ok()
 			pend := common.VerifPending(t)
 			h := sha256.Sum256(pend)
 			e["pending_len"] = len(pend)
